@@ -72,7 +72,13 @@ META = {
                   '(remove_success at every failure report, no later save); that an absent record means "not '
                   'up-to-date next run" is OBSERVED on the real code by the third run (no M2 status model exists yet) '
                   '-- monitor C05_reexecuted is a Python predicate; the other four monitors are Lean predicates '
-                  '(driver; three of them proved to hold on every model trace) cross-checked in Python.',
+                  '(driver) cross-checked in Python, all four proved sound on model traces: no_dependent_runs, '
+                  'not_recorded, serial_stops on the trace of every reachable state; continue_complete '
+                  '(C05_monitor_continue_complete_serial/_parallel) on the trace of every run that ended normally '
+                  '(rpc = halted, no internal error), for every bound nTasks above all task names (namesBelow) -- '
+                  'including that the closure the monitor computes from the trace, which is larger than the '
+                  'model closure RunCl (setup-tasks of tasks reported unmet/ignored in the second select_task '
+                  'pass), is fully processed, and that its nTasks-round fixed-point iterations are complete.',
     'rule': 'runlib DAG generator (3-8 tasks, all edge kinds, groups, shared deps, calc deliveries, up-to-date and '
             'ignored tasks) with failure-heavy oracle: outcome failed/error/saveerr x how return/raise/object, status '
             'error (missing file_dep); backend json|dbm|sqlite3; warm-up run or not; runner serial | thread k=1..4 x '
